@@ -229,6 +229,9 @@ def rule_prefix(model):
                 isinstance(n.targets[0], ast.Name) and \
                 norm(n.value) == 'self.alt_prefix':
             alias.add(n.targets[0].id)
+        if isinstance(n, ast.NamedExpr) and \
+                norm(n.value) == 'self.alt_prefix':
+            alias.add(n.target.id)
     strip_ok = False
     for n in own_nodes(g.node):
         if isinstance(n, ast.Subscript) and norm(n.value) == keyp and \
